@@ -1,58 +1,94 @@
-(* C24 — Sql/Constraints: the transaction machine of C23 with declared constraints on
-   t(pk, a, b): PRIMARY KEY(pk) (inherent in the key -> row map), UNIQUE KEY ua(a)
-   (NULLs never collide), CHECK (a <= b) (NULL passes).  No proofs here.
+(* C24 — Sql/Constraints: the transaction machine of C23 over a two-table database with
+   declared constraints, and the branch merge that records violations.  No proofs here.
+
+     p(pk PRIMARY KEY, a int NOT NULL, b int)
+     t(pk PRIMARY KEY, a int, b int, UNIQUE KEY ua(a), CHECK (a <= b),
+       FOREIGN KEY (b) REFERENCES p(pk))                       -- ON DELETE RESTRICT (default)
+
+   Both tables live in one key -> row map: keys >= 100 are rows of p (pk = key - 100), keys
+   below are rows of t.  PRIMARY KEY is inherent in the map.  NULLs never collide in the unique
+   key, a NULL passes the CHECK, a NULL foreign key references nothing.
 
    Mirrors:
-     go-mysql-server statement-level enforcement, as an oracle: a statement whose
-       result would violate a constraint is rejected and has no effect ("rejecting writer";
-       sqle/writer/prolly_table_writer.go ValidateKeyViolations / checkForUniqueKeyErr);
-     sqle/dsess/transactions.go doCommit: ff => install; else mergeRoots, then
-       validateWorkingSetForCommit: conflicts => rollback + retryable error; constraint
-       violations recorded by the merge (merge/merge_prolly_rows.go uniqValidator,
-       checkValidator; violations_*.go) => rollback + ErrUnresolvedConstraintViolationsCommit
-       (dolt_force_transaction_commit = 0).
-   Abstracted: NOT NULL and FOREIGN KEY constraints (not declared on the case table),
-   dolt_force_transaction_commit / disabled checks, branch merges (dolt_merge) that
-   record violations in dolt_constraint_violations instead of rejecting. *)
+     statement-level enforcement (go-mysql-server + sqle/writer): NOT modelled as code; it is an
+       explicit oracle [ex : session -> stmt -> table -> result * table] in the machine.  The
+       correspondence instantiates it with the rejecting writer [exec_c] (a statement whose
+       result would break a constraint is refused and has no effect).
+     sqle/dsess/transactions.go doCommit / validateWorkingSetForCommit: ff => install; else merge
+       (merge.MergeRoots); conflicts => rollback + retryable error; violations recorded by the
+       merge => rollback + ErrUnresolvedConstraintViolationsCommit (dolt_force_transaction_commit = 0).
+     merge/merge_prolly_rows.go uniqValidator.validateDiff / clearArtifact  [uscan, urec]
+                                checkValidator / nullValidator.validateDiff [rowscan]
+     merge/violations_fk.go RegisterForeignKeyViolations, violations_fk_prolly.go:
+                                child diff base->merged (added / modified): parent must exist;
+                                parent diff base->merged (removed): no child may reference it [fkscan]
+     dolt_merge with @@dolt_force_transaction_commit = 1: the same validators, violations kept in
+       dolt_constraint_violations_<table>                                                [recorded]
+
+   Abstracted: ON DELETE / ON UPDATE CASCADE, SET NULL; several unique keys; schema changes
+   (NOT NULL added on one branch); foreign_key_checks = 0 is outside the enforcement
+   hypothesis (explicit exception in the theorem). *)
 From Coq Require Import NArith List Bool.
 From Dolt Require Import C23.Model.
 Import ListNotations.
 Local Open Scope N_scope.
 
+Definition pbase : N := 100.
+Definition is_parent (k : N) : bool := pbase <=? k.
+
 Definition check_ok (r : row) : bool :=
   match fst r, snd r with Some x, Some y => x <=? y | _, _ => true end.
+Definition notnull_ok (r : row) : bool := match fst r with Some _ => true | None => false end.
+(* row-local constraints: CHECK for t, NOT NULL for p *)
+Definition row_ok (k : N) (r : row) : bool := if is_parent k then notnull_ok r else check_ok r.
 Definition clash (r1 r2 : row) : bool :=
   match fst r1, fst r2 with Some x, Some y => x =? y | _, _ => false end.
+
+(* violation types of dolt_constraint_violations_<table>.violation_type *)
+Definition vt_fk : N := 1.
+Definition vt_unique : N := 2.
+Definition vt_check : N := 3.
+Definition vt_notnull : N := 4.
 
 Section Universe.
   Variable U : list N.
 
-  (* all declared constraints hold in table t *)
+  Definition fk_ok_row (t : table) (k : N) (r : row) : bool :=
+    if is_parent k then true
+    else match snd r with
+         | None => true
+         | Some x => match get U t (pbase + x) with Some _ => true | None => false end
+         end.
+
+  (* all declared constraints hold in database state t *)
   Definition valid (t : table) : bool :=
     forallb (fun k => match get U t k with
                       | None => true
-                      | Some r => check_ok r &&
-                                  forallb (fun k' => (k' =? k) || match get U t k' with
-                                                                  | Some r' => negb (clash r r')
-                                                                  | None => true
-                                                                  end) U
+                      | Some r =>
+                        row_ok k r && fk_ok_row t k r &&
+                        forallb (fun k' => (k' =? k) || is_parent k || is_parent k' ||
+                                           match get U t k' with
+                                           | Some r' => negb (clash r r')
+                                           | None => true
+                                           end) U
                       end) U.
 
-  (* rejecting writer *)
-  Definition exec_c (st : stmt) (t : table) : sobs * table :=
+  (* the rejecting writer: the instance of the enforcement oracle used by the correspondence *)
+  Definition exec_c (i : N) (st : stmt) (t : table) : sobs * table :=
     let '(o, t') := exec_dml U st t in
     if so_err o =? err_none then (if valid t' then (o, t') else (obs_err err_constraint, t))
     else (o, t).
 
-  (* merge/merge_prolly_rows.go uniqValidator.validateDiff, as it is: the diffs are visited in
-     primary-key order against a copy of the LEFT (persisted) unique index that only grows —
-     insertRow adds the entry of a merged row, the old entry of a modified row is never
-     removed, only a right-side DELETE removes its entry (removeRow).  A right add / modify
-     whose non-NULL value has an entry under another primary key is recorded as a unique
-     violation.  Consequence (observed on the engine, seed 2 of the generator): a transaction
-     that moves a unique value from one row to another (row 3: a 0 -> 1, new row 1: a = 0) is
-     refused with a constraint-violation error although the merged table is valid.
-     E = entries (a, pk); l = persisted table; m = merged table. *)
+  (* ---------------------------------------------------------------- *)
+  (* merge-time validators.  b = merge base, l = left (persisted / ours), m = merged rows *)
+
+  (* uniqValidator.validateDiff, as it is: the diffs are visited in primary-key order against a
+     copy of the LEFT unique index that only grows — insertRow adds the entry of a merged row,
+     the old entry of a modified row is never removed (stale entry), only a right-side DELETE
+     removes its entry.  A right add / modify whose non-NULL value has an entry under another
+     primary key is a unique violation.  Documented quirk: a merge that moves a unique value from
+     one row to another (row 3: a 0 -> 1, new row 1: a = 0) reports a violation although the
+     merged table is valid. *)
   Definition collide (E : list (cell * N)) (a : cell) (k : N) : bool :=
     match a with
     | None => false
@@ -63,64 +99,179 @@ Section Universe.
     match keys with
     | [] => false
     | k :: ks =>
-      if orow_eqb (get U l k) (get U m k) then uscan ks l m E          (* no right edit at k *)
+      if is_parent k then uscan ks l m E
+      else if orow_eqb (get U l k) (get U m k) then uscan ks l m E      (* no right edit at k *)
       else match get U m k with
-           | None =>                                                   (* DiffOpRightDelete *)
-             uscan ks l m (filter (fun e => negb (snd e =? k)) E)
-           | Some r =>                                                 (* RightAdd / RightModify / DivergentModifyResolved *)
-             collide E (fst r) k || uscan ks l m ((fst r, k) :: E)
+           | None => uscan ks l m (filter (fun e => negb (snd e =? k)) E)   (* DiffOpRightDelete *)
+           | Some r => collide E (fst r) k || uscan ks l m ((fst r, k) :: E)
            end
     end.
 
   Definition entries_of (t : table) : list (cell * N) :=
-    flat_map (fun k => match get U t k with Some r => [(fst r, k)] | None => [] end) U.
+    flat_map (fun k => if is_parent k then [] else
+                       match get U t k with Some r => [(fst r, k)] | None => [] end) U.
+
+  (* the same scan keeping the artifacts (keys with a recorded unique violation), including
+     clearArtifact on a right-side delete and the re-validation of left-side edits *)
+  Definition colliders (E : list (cell * N)) (a : cell) (k : N) : list N :=
+    match a with
+    | None => []
+    | Some _ => map snd (filter (fun e => cell_eqb (fst e) a && negb (snd e =? k)) E)
+    end.
+  Definition memN (k : N) (l : list N) : bool := existsb (N.eqb k) l.
+  Definition addN (k : N) (l : list N) : list N := if memN k l then l else k :: l.
+  Definition delN (k : N) (l : list N) : list N := filter (fun x => negb (x =? k)) l.
+
+  Fixpoint urec (keys : list N) (b l m : table) (E : list (cell * N)) (A : list N) : list N :=
+    match keys with
+    | [] => A
+    | k :: ks =>
+      if is_parent k then urec ks b l m E A
+      else if orow_eqb (get U l k) (get U m k) then
+        (* no right edit; a left add / modify is validated too *)
+        match get U l k with
+        | Some r =>
+          if orow_eqb (get U b k) (get U l k) then urec ks b l m E A
+          else let cs := colliders E (fst r) k in
+               urec ks b l m E (match cs with [] => A | _ => fold_right addN (addN k A) cs end)
+        | None => urec ks b l m E A
+        end
+      else match get U m k with
+           | None =>
+             let E' := filter (fun e => negb (snd e =? k)) E in
+             let A' := if memN k A
+                       then fold_right delN (delN k A)
+                                       (colliders E' (match get U l k with Some r => fst r | None => None end) k)
+                       else A in
+             urec ks b l m E' A'
+           | Some r =>
+             let cs := colliders E (fst r) k in
+             urec ks b l m ((fst r, k) :: E) (match cs with [] => A | _ => fold_right addN (addN k A) cs end)
+           end
+    end.
+
+  (* merge.MergeTable short-circuit: a table unchanged on one side since the base is taken from
+     the other side as a whole; the row validators (unique / check / not null) run only for a
+     table changed on BOTH sides.  par = true: table p, false: table t. *)
+  Definition tbl_same (par : bool) (x y : table) : bool :=
+    forallb (fun k => negb (Bool.eqb (is_parent k) par) || orow_eqb (get U x k) (get U y k)) U.
+  Definition both_changed (par : bool) (b l r : table) : bool :=
+    negb (tbl_same par b l) && negb (tbl_same par b r).
+
+  (* checkValidator / nullValidator: edited rows (relative to the base) that break a row-local constraint *)
+  Definition row_bad (b m : table) (k : N) : bool :=
+    negb (orow_eqb (get U b k) (get U m k)) &&
+    match get U m k with Some r => negb (row_ok k r) | None => false end.
+  Definition rowscan (b l r m : table) : bool :=
+    existsb (fun k => both_changed (is_parent k) b l r && row_bad b m k) U.
+
+  (* foreign key violations of the diff base -> merged: keys of child rows *)
+  Definition fk_bad_child (b m : table) (k : N) : bool :=     (* child added / modified without a parent *)
+    negb (is_parent k) && negb (orow_eqb (get U b k) (get U m k)) &&
+    match get U m k with Some r => negb (fk_ok_row m k r) | None => false end.
+  Definition parent_removed (b m : table) (pk : N) : bool :=
+    is_parent pk && match get U b pk, get U m pk with Some _, None => true | _, _ => false end.
+  Definition fk_bad_orphan (b m : table) (k : N) : bool :=    (* child of a removed parent *)
+    negb (is_parent k) &&
+    match get U m k with
+    | Some r => match snd r with
+                | Some x => parent_removed b m (pbase + x)
+                | None => false
+                end
+    | None => false
+    end.
+  Definition fk_bad (b m : table) (k : N) : bool := fk_bad_child b m k || fk_bad_orphan b m k.
+  Definition fkscan (b m : table) : bool := existsb (fk_bad b m) U.
+
+  Definition uniq_b (t : table) : bool :=
+    forallb (fun k => match get U t k with
+                      | None => true
+                      | Some r => forallb (fun k' => (k' =? k) || is_parent k || is_parent k' ||
+                                                     match get U t k' with
+                                                     | Some r' => negb (clash r r')
+                                                     | None => true
+                                                     end) U
+                      end) U.
+  Definition is_nil {A} (l : list A) : bool := match l with [] => true | _ => false end.
 
   (* doCommit with validateWorkingSetForCommit: new persisted state and error class.
-     The whole merged table is re-validated as well ([valid m]): for uniqueness this is
-     implied by [uscan] finding nothing (not proved here), for CHECK it is checkValidator. *)
+     The unique validator's verdict is "artifacts left at the end of the scan" ([urec], with
+     clearArtifact: a collision seen at a low key is forgotten when the colliding row is deleted
+     at a higher key).  That an empty artifact set implies uniqueness of the merged table is NOT
+     proved (see Proofs.v, urec_empty_unique: open); the model therefore also re-validates
+     uniqueness of the merged table ([uniq_b m]) — on the implementation this second test has
+     never decided a case (the correspondence would show it as a mismatch). *)
   Definition commit_c (h s w : table) : table * N :=
     if table_eqb U h s then (w, err_none)
     else let '(m, c) := merge_tables U s h w in
          if c then (h, err_retry)
-         else if uscan U h m (entries_of h) then (h, err_constraint)
-         else if valid m then (m, err_none)
-         else (h, err_constraint).
+         else if (both_changed false s h w && negb (is_nil (urec U s h m (entries_of h) [])))
+                 || rowscan s h w m || fkscan s m || negb (uniq_b m)
+              then (h, err_constraint)
+         else (m, err_none).
 
-  Definition commit_sess_c (i : N) (w : world) : N * world :=
-    let s := w_ss w i in
-    let '(h', e) := commit_c (w_head w) (s_snap s) (s_work s) in
-    (e, {| w_head := h'; w_ss := upd (w_ss w) i (s_end s) |}).
+  (* ---------------------------------------------------------------- *)
+  (* the machine, generic in the statement-enforcement oracle          *)
+  Section Machine.
+    Variable ex : N -> stmt -> table -> sobs * table.
 
-  Definition cstep (i : N) (st : stmt) (w : world) : sobs * world :=
-    let s := w_ss w i in
-    match st with
-    | SCommit =>
-      if s_active s then let '(e, w') := commit_sess_c i w in (if e =? err_none then obs_ok else obs_err e, w')
-      else (obs_ok, w)
-    | SRollback => (obs_ok, {| w_head := w_head w; w_ss := upd (w_ss w) i (s_end s) |})
-    | SBegin =>
-      if s_active s then
-        let '(e, w') := commit_sess_c i w in
-        if e =? err_none then (obs_ok, {| w_head := w_head w'; w_ss := upd (w_ss w') i (s_begin s (w_head w')) |})
-        else (obs_err e, w')
-      else (obs_ok, {| w_head := w_head w; w_ss := upd (w_ss w) i (s_begin s (w_head w)) |})
-    | _ =>
-      let implicit := negb (s_active s) in
-      let s1 := ensure_txn s (w_head w) in
-      let '(o, t') := exec_c st (s_work s1) in
-      let w1 := {| w_head := w_head w; w_ss := upd (w_ss w) i (s_with_work s1 t') |} in
-      if implicit && s_auto s then
-        let '(e, w2) := commit_sess_c i w1 in (if e =? err_none then o else obs_err e, w2)
-      else (o, w1)
-    end.
+    Definition commit_sess_c (i : N) (w : world) : N * world :=
+      let s := w_ss w i in
+      let '(h', e) := commit_c (w_head w) (s_snap s) (s_work s) in
+      (e, {| w_head := h'; w_ss := upd (w_ss w) i (s_end s) |}).
 
-  (* run, recording the committed table after every statement *)
-  Fixpoint crun (sched : list (N * stmt)) (w : world) : list (sobs * list (N * cell * cell)) * world :=
-    match sched with
-    | [] => ([], w)
-    | (i, st) :: rest =>
-      let '(o, w1) := cstep i st w in
-      let '(os, w2) := crun rest w1 in
-      ((o, dump U (w_head w1)) :: os, w2)
+    Definition cstep (i : N) (st : stmt) (w : world) : sobs * world :=
+      let s := w_ss w i in
+      match st with
+      | SCommit =>
+        if s_active s then let '(e, w') := commit_sess_c i w in (if e =? err_none then obs_ok else obs_err e, w')
+        else (obs_ok, w)
+      | SRollback => (obs_ok, {| w_head := w_head w; w_ss := upd (w_ss w) i (s_end s) |})
+      | SBegin =>
+        if s_active s then
+          let '(e, w') := commit_sess_c i w in
+          if e =? err_none then (obs_ok, {| w_head := w_head w'; w_ss := upd (w_ss w') i (s_begin s (w_head w')) |})
+          else (obs_err e, w')
+        else (obs_ok, {| w_head := w_head w; w_ss := upd (w_ss w) i (s_begin s (w_head w)) |})
+      | _ =>
+        let implicit := negb (s_active s) in
+        let s1 := ensure_txn s (w_head w) in
+        let '(o, t') := ex i st (s_work s1) in
+        let w1 := {| w_head := w_head w; w_ss := upd (w_ss w) i (s_with_work s1 t') |} in
+        if implicit && s_auto s then
+          let '(e, w2) := commit_sess_c i w1 in (if e =? err_none then o else obs_err e, w2)
+        else (o, w1)
+      end.
+
+    (* run, recording the committed database after every statement *)
+    Fixpoint crun (sched : list (N * stmt)) (w : world) : list (sobs * list (N * cell * cell)) * world :=
+      match sched with
+      | [] => ([], w)
+      | (i, st) :: rest =>
+        let '(o, w1) := cstep i st w in
+        let '(os, w2) := crun rest w1 in
+        ((o, dump U (w_head w1)) :: os, w2)
+      end.
+  End Machine.
+
+  (* ---------------------------------------------------------------- *)
+  (* dolt_merge with @@dolt_force_transaction_commit = 1: merged rows, "has conflicts", and the
+     recorded violations (type, key), listed by type then in key order of U *)
+  Definition recorded (b l r m : table) : list (N * N) :=
+    let A := if both_changed false b l r then urec U b l m (entries_of l) [] else [] in
+    map (fun k => (vt_fk, k)) (filter (fk_bad b m) U)
+    ++ map (fun k => (vt_unique, k)) (filter (fun k => memN k A) U)
+    ++ map (fun k => (vt_check, k)) (filter (fun k => negb (is_parent k) && both_changed false b l r && row_bad b m k) U)
+    ++ map (fun k => (vt_notnull, k)) (filter (fun k => is_parent k && both_changed true b l r && row_bad b m k) U).
+
+  Definition branch_merge (b l r : table) : table * bool * list (N * N) :=
+    let '(m, c) := merge_tables U b l r in (m, c, recorded b l r m).
+
+  (* a branch: the statements of one side applied in one session *)
+  Fixpoint apply_stmts (sts : list stmt) (t : table) : list sobs * table :=
+    match sts with
+    | [] => ([], t)
+    | st :: r => let '(o, t1) := exec_c 0 st t in
+                 let '(os, t2) := apply_stmts r t1 in (o :: os, t2)
     end.
 End Universe.
